@@ -237,9 +237,7 @@ type ex struct {
 	cur       []string
 	d         [2]*dirState
 	proc      [2]h2.Processor
-	grpc      bool // oracle's reading: a content-type: application/grpc header field has been seen
-	specOnly  bool // ... only a content-type the gRPC spec also calls gRPC (application/grpc+proto, application/grpc;...) has
-	mixed     bool // the bare media type arrived after such a variant: no reading of the stream is attempted
+	grpc      bool // oracle's reading: a content-type field announcing gRPC (specGrpc) has been seen
 	reportF11 bool
 }
 
@@ -357,17 +355,6 @@ func (e *ex) Do(op string) core.Result {
 	}
 	e.cur = nil
 	switch t[0] {
-	case "u32lt": // u32lt <n> <l>: Go's `uint32(n) < l` for an int n (adapter.Data compares uint32(a.buffer.Len()) with a.length)
-		if len(t) != 3 {
-			return bad
-		}
-		n, err1 := strconv.ParseInt(t[1], 10, 64)
-		l, err2 := strconv.ParseUint(t[2], 10, 32)
-		if err1 != nil || err2 != nil || n < 0 {
-			return bad
-		}
-		core.Count("arith:u32lt")
-		return core.Result{Impl: b01(uint32(int(n)) < uint32(l))}
 	case "pfx": // pfx <n>: what emitter.Message writes for a payload of n bytes, read back as adapter.Data reads it
 		if len(t) != 2 {
 			return bad
@@ -488,23 +475,15 @@ func (e *ex) header(dir int, hs []hf, es bool) core.Result {
 	// the oracle's own reading of the header block: is the stream gRPC (whichever field says so,
 	// wherever it stands), and which encoding does this direction use (the last grpc-encoding field)
 	for _, h := range hs {
-		if h.n != "content-type" || !specGrpc(h.v) {
-			continue
-		}
-		switch {
-		case h.v == "application/grpc" && !e.grpc:
+		if h.n == "content-type" && specGrpc(h.v) && !e.grpc {
 			e.grpc = true
-			if e.specOnly {
-				e.mixed = true
-				core.Count("hdr:mixed-announcement")
+			if h.v != "application/grpc" {
+				core.Count("hdr:grpc-subtype")
 			}
-			e.d[0].sinkFrom, e.d[1].sinkFrom = len(e.d[0].sink), len(e.d[1].sink)
-		case h.v != "application/grpc" && !e.grpc && !e.specOnly:
-			e.specOnly = true
 			e.d[0].sinkFrom, e.d[1].sinkFrom = len(e.d[0].sink), len(e.d[1].sink)
 		}
 	}
-	if e.grpc || e.specOnly {
+	if e.grpc {
 		for _, h := range hs {
 			if h.n == "grpc-encoding" {
 				switch h.v {
@@ -529,20 +508,6 @@ func (e *ex) header(dir int, hs []hf, es bool) core.Result {
 	}
 	r := core.Result{Impl: e.line()}
 	want := "sh:" + b01(es) + ":" + showHdrs(hs)
-	if e.mixed {
-		return r
-	}
-	if !e.grpc && e.specOnly {
-		// gRPC by the specification, not by the code's exact comparison (finding F11d): either
-		// treatment of the block is accepted here, the stream is judged at its end
-		core.Count("hdr:grpc-subtype")
-		if es && err == nil {
-			if f, sig := e.judgeEnd(dir, false); f != "" {
-				r.Fail, r.Sig = f, sig
-			}
-		}
-		return r
-	}
 	if !e.grpc {
 		core.Count("hdr:non-grpc")
 		if r.Impl != want {
@@ -574,7 +539,7 @@ func (e *ex) data(dir int, b []byte, es bool) core.Result {
 	if d.dead {
 		return core.Result{Impl: "out-of-model", SkipModel: true}
 	}
-	if e.grpc || e.specOnly { // the oracle's reading: only DATA of a stream already announced as gRPC is gRPC
+	if e.grpc { // the oracle's reading: only DATA of a stream already announced as gRPC is gRPC
 		d.in = append(d.in, b...)
 		d.fedData = true
 	}
@@ -586,18 +551,6 @@ func (e *ex) data(dir int, b []byte, es bool) core.Result {
 		core.Count("data:error:" + errKind(err))
 	}
 	r := core.Result{Impl: e.line()}
-	if e.mixed {
-		return r
-	}
-	if !e.grpc && e.specOnly {
-		core.Count("data:grpc-subtype")
-		if es && err == nil {
-			if f, sig := e.judgeEnd(dir, true); f != "" {
-				r.Fail, r.Sig = f, sig
-			}
-		}
-		return r
-	}
 	if !e.grpc {
 		core.Count("data:non-grpc")
 		want := "sd:" + b01(es) + ":" + showBytes(b)
@@ -675,31 +628,6 @@ func (e *ex) judgeEnd(dir int, viaData bool) (string, string) {
 	}
 	core.Count("oracle:judged")
 	core.Count(fmt.Sprintf("oracle:judged:msgs=%d", min(len(want), 4)))
-
-	// the known defect F11d: a stream announced with a content-type the gRPC specification allows
-	// but the code does not compare equal to "application/grpc" is not processed at all - every
-	// frame is forwarded untouched and the processor is shown nothing.
-	if e.specOnly && !e.grpc {
-		var raw []byte
-		for i, s := range d.sink {
-			if i >= d.sinkFrom && s.kind == 'd' {
-				raw = append(raw, s.data...)
-			}
-		}
-		if len(d.shown) == 0 && bytes.Equal(raw, d.in) {
-			if len(want) == 0 {
-				return "", ""
-			}
-			core.Count("f11d:pattern-seen")
-			if e.reportF11 {
-				core.Count("f11d:reported")
-				return fmt.Sprintf("stream announced as gRPC with a content-type subtype or parameter carries %d message(s): the processor was shown none (forwarded untouched as non-gRPC)", len(want)),
-					"c11:grpc-subtype-not-recognised"
-			}
-			return "", ""
-		}
-		// otherwise it was processed: judged like any gRPC stream
-	}
 
 	// the known defect F11b: END_STREAM on an empty DATA frame while no message is pending is
 	// turned into Message(nil, true) and re-emitted as one more, empty, message.
